@@ -103,6 +103,10 @@ def analyze_accumulator(in_model, x, verbose=False):
         isinstance(layer, QDense)):
       weights = layer.get_weights()
       k = weights[0]
+      if isinstance(layer, QDepthwiseConv2D):
+        # depthwise kernel is (rows, cols, input channels, depth multiplier):
+        # output channel c * depth_multiplier + m is fed by k[:, :, c, m].
+        k = k.reshape(k.shape[:-2] + (-1,))
       if layer.use_bias:
         b = weights[1]
       else:
@@ -110,7 +114,8 @@ def analyze_accumulator(in_model, x, verbose=False):
 
       all_bits = []
       nbits = []
-      for i in range(k.shape[1]):
+      # output channels are the last axis of the kernel
+      for i in range(k.shape[-1]):
         # compute sum of positive weights
         npp = np.sum(k[..., i] * (k[..., i] > 0)) + (b[i] > 0) * b[i]
 
